@@ -55,6 +55,8 @@ type AAKey struct {
 	Priv   *big.Int
 	DERSig bool // signature as DER SEQUENCE instead of plain r||s
 	HashID int  // crypto.Hash for ECDSA (0 = by key size)
+	// SteerFirstOctet: search the signing nonce so that r starts with this octet (still a genuine signature)
+	SteerFirstOctet *byte
 }
 
 type Config struct {
@@ -134,6 +136,7 @@ type Chip struct {
 
 	// ground-truth counters
 	PlainLDSReads  int // READ BINARY / SELECT of LDS files served without SM (only possible with OpenLDS)
+	AASteered      int // ECDSA signatures whose first octet was steered successfully
 	SMFailures     int // protected commands that failed authentication
 	SMTerminations int
 	ReadBinaryLog  []ReadRec
